@@ -1,4 +1,5 @@
 """C05  HCM stress-strain bookkeeping matches the guideline procedure, point by point."""
+import itertools
 import warnings
 
 import numpy as np
@@ -39,7 +40,10 @@ ASSUMPTIONS = ["load samples are integers (tolerance comparisons exact); sequenc
                "oracle: scalar implementation of the HCM case analysis a)i, a)ii, b, c)i, c)ii with Memory 1-3, Masing "
                "secondary branches from the reversal point, running strain extremes updated in the direction of travel "
                "(pvx/harness/c05.py hcm_oracle); it was written from the same reading of the guideline as the code",
-               "multi-point: load histories proportional with factors from {1/2, 2, 3}, node ids non-contiguous"]
+               "multi-point: load histories proportional with factors from {1/2, 2, 3}, node ids non-contiguous",
+               "multi-point with a history fed in several process() calls: any integer samples (no reversal assumption), load "
+               "steps numbered consecutively across the calls, last call flushed; compared with every point processed alone "
+               "through the same calls (two runs of the real code, no oracle)"]
 OUTSIDE = "sequences longer than the bound; laws that are not functions of the load (path dependent)"
 RULE = ("one evaluation = one explored path (order type of the integer loads and of the law's stress/strain values); "
         "distinct = distinct (case, flags/run pattern of hystereses); non-trivial = at least one recorded hysteresis")
@@ -53,7 +57,8 @@ COLS_VAL = ["loads_min", "loads_max", "S_min", "S_max", "epsilon_min", "epsilon_
 
 def bounds(tier):
     return {"reversals_per_period": "2, 4 (single point; quick: negation and multi-point with 2 only)",
-            "points": "1..2 (quick), 1..3 (thorough); factors 1/2, 2, 3 relative to the first point"}
+            "points": "1..2 (quick), 1..3 (thorough); factors 1/2, 2, 3 relative to the first point",
+            "chunked_multi_point": "4 samples, every single border, one double border (quick); 4..5 samples, every single border, several double borders (thorough)"}
 
 
 def options(tier):
@@ -81,6 +86,17 @@ def cases(tier):
             c = {"kind": "multi", "n": n, "factors": fac, "_weight": 9 ** n * 3}
             c["_split"] = (4 if len(fac) == 1 else 5) if n == 2 else 8
             out.append(c)
+    # several points at once, history fed in several process() calls: any samples (plateaus, non-reversals, borders anywhere)
+    for n in ((4,) if q else (4, 5)):
+        for k in (1, 2):
+            for cuts in itertools.combinations(range(1, n), k):
+                if q and (k == 2 and cuts != (2, 3)):
+                    continue
+                if n == 5 and k == 2 and cuts not in ((1, 3), (2, 4), (3, 4)):
+                    continue
+                for fac in ([[0.5]] if (q or n == 5) else [[0.5], [2.0, 0.5]]):
+                    out.append({"kind": "multi_chunked", "n": n, "cuts": list(cuts), "factors": fac, "_weight": 9 ** n, "_split": 5 if n == 4 else 7})
+    out.append({"kind": "multi_chunked", "n": 5, "cuts": [3], "factors": [0.5], "plateau_at_cut": True, "_weight": 9 ** 4, "_split": 5})
     if q:
         # the part of the four-reversal multi-point family in which a hysteresis is closed by the deferred last reversal
         out.append({"kind": "multi", "n": 4, "factors": [0.5], "only": "deferred_closing", "_weight": 9 ** 3, "_split": 5})
@@ -280,6 +296,10 @@ def _apply_canary(ctx):
         ctx.patch(D, "_hcm_update_min_max_strain_values", mutated(D._hcm_update_min_max_strain_values, "if previous_load < current_load_representative-1e-12:", "if previous_load < current_load_representative+1e+12:"))
     elif cn == "R_not_forced":
         ctx.patch(REC.FKMNonlinearRecorder, "R", property(mutated(REC.FKMNonlinearRecorder.R.fget, "-1, np.array(self._S_min) / np.array(self._S_max))", "1, np.array(self._S_min) / np.array(self._S_max))")))
+    elif cn == "carried_point_keeps_chunk_label":
+        ctx.patch(D, "process", mutated(D.process, "steps[:len(self._last_sample)] = self._last_load_step", "pass"))
+    elif cn == "multipoint_rows_of_previous_pass":
+        ctx.patch(D, "process", mutated(D.process, "n_rows = n_previous * (len(_S_min) // len(_is_closed_hysteresis))", "n_rows = n_previous"))
     elif cn is not None:
         raise RuntimeError("unknown canary " + cn)
 
@@ -289,8 +309,10 @@ CANARIES = [
     {"name": "lf_min_not_updated", "cases": [{"kind": "single", "n": 2}]},
     {"name": "R_not_forced", "cases": [{"kind": "single", "n": 2}]},
     {"name": "memory2_on_secondary", "cases": [{"kind": "single", "n": 4}]},
+    {"name": "carried_point_keeps_chunk_label", "cases": [{"kind": "multi_chunked", "n": 4, "cuts": [3], "factors": [0.5]}]},
+    {"name": "multipoint_rows_of_previous_pass", "cases": [{"kind": "multi", "n": 4, "factors": [0.5], "only": "deferred_closing"}]},
 ]
-QUICK_CANARIES = 4
+QUICK_CANARIES = 6
 
 
 def _run_impl(ctx, law, data):
@@ -363,10 +385,60 @@ def _check_rows(ctx, coll, rows, point=None, tag=""):
             ctx.claim(ctx.close(g, r["S_min"] / r["S_max"]), "rows.derived", (tag, "R"))
 
 
+def _run_chunked(ctx, case):
+    """several points at once == every point alone, when the history arrives in two process() calls (any samples:
+    plateaus, non-reversals and a chunk border inside a plateau included).  Two runs of the real code are compared."""
+    n, cuts, factors = case["n"], list(case["cuts"]), [1.0] + list(case["factors"])
+    xs = [ctx.int("x%d" % i) for i in range(n)]
+    ctx.hint(sym_and(*[sym_and(x <= 8, x >= -8) for x in xs]))
+    if case.get("plateau_at_cut"):
+        ctx.assume(xs[cuts[0] - 2] == xs[cuts[0] - 1])           # sub-family: the first chunk ends inside a plateau
+    borders = [0] + cuts + [n]
+    chunks = list(zip(borders[:-1], borders[1:]))
+    law = StubLaw(ctx)
+    dt = object if ctx.sym else np.float64
+    nodes = [7, 9, 4][:len(factors)]
+
+    def series(lo, hi):
+        idx = pd.MultiIndex.from_product([range(lo, hi), nodes], names=["load_step", "node_id"])
+        vals = []
+        for x in xs[lo:hi]:
+            vals += [f * x for f in factors]
+        return pd.Series(np.array(vals, dtype=dt), index=idx)
+
+    with warnings.catch_warnings():
+        warnings.simplefilter("ignore")
+        rec = FKMNonlinearRecorder()
+        det = FKMNonlinearDetector(recorder=rec, notch_approximation_law=law)
+        for lo, hi in chunks:
+            det.process(series(lo, hi), flush=(hi == n))
+        coll = rec.collective
+        out = {}
+        for j, f in enumerate(factors):
+            rec1 = FKMNonlinearRecorder()
+            det1 = FKMNonlinearDetector(recorder=rec1, notch_approximation_law=law)
+            for lo, hi in chunks:
+                det1.process(np.array([f * x for x in xs[lo:hi]], dtype=dt), flush=(hi == n))
+            c1 = rec1.collective
+            rows_m, rows_1 = len(_colvals(coll, "run_index", j)), len(_colvals(c1, "run_index"))
+            ctx.claim(rows_m == rows_1, "multipoint_equals_single", ("chunked: rows", j, rows_m, rows_1))
+            if rows_m != rows_1:
+                continue
+            for col in ("loads_min", "loads_max", "S_min", "S_max", "epsilon_min", "epsilon_max"):
+                ctx.claim(eq_struct(_colvals(coll, col, j), _colvals(c1, col)), "multipoint_equals_single", ("chunked", j, col, _colvals(coll, col, j), _colvals(c1, col)))
+            for col in ("is_closed_hysteresis", "is_zero_mean_stress_and_strain", "run_index"):
+                ctx.claim([int(v) for v in _colvals(coll, col, j)] == [int(v) for v in _colvals(c1, col)], "multipoint_equals_single", ("chunked", j, col))
+            out["p%d" % j] = _colvals(coll, "loads_max", j)
+        ctx.signature(("multi_chunked", n, tuple(cuts), [bool(v) for v in _colvals(coll, "is_closed_hysteresis", 0)]), trivial=not len(coll))
+    return out
+
+
 def run(ctx, case):
     _apply_canary(ctx)
     if ctx.sym:
         ctx.eng.int_mode = True
+    if case["kind"] == "multi_chunked":
+        return _run_chunked(ctx, case)
     kind, n = case["kind"], case["n"]
     xs = [ctx.int("x%d" % i) for i in range(n)]
     ctx.hint(sym_and(*[sym_and(x <= 8, x >= -8) for x in xs]))
